@@ -101,7 +101,11 @@ ALT_VALUES = [0x00, 0x01, 0x20, 0x30, 0x39, 0x41, 0x43, 0x7E, 0x7F, 0x80, 0x84, 
 ALT_FULL_SIZES = [12, 13, 256, 3200]
 LIS_SIZES = [1, 7, 40]
 LIS_LAYOUTS = [{'maxlen': 65535}, {'maxlen': 40}, {'maxlen': 64, 'tif': 'normal'}, {'maxlen': 65535, 'tif': 'normal'},
-               {'maxlen': 64, 'tif': 'reversed'}, {'maxlen': 65535, 'tif': 'reversed'}]
+               {'maxlen': 64, 'tif': 'reversed'}, {'maxlen': 65535, 'tif': 'reversed'},
+               # physical records padded with nulls to even / 4-byte file positions (LIS-79 2.3.1.1), plain and TIF-marked
+               {'maxlen': 41, 'pad': 2}, {'maxlen': 41, 'pad': 4}, {'maxlen': 65535, 'pad': 4},
+               {'maxlen': 41, 'tif': 'normal', 'pad': 2}, {'maxlen': 41, 'tif': 'normal', 'pad': 4}, {'maxlen': 65535, 'tif': 'normal', 'pad': 4},
+               {'maxlen': 41, 'tif': 'reversed', 'pad': 4}]
 LIS_EXPECT = {None: 'LIS', 'normal': 'LISt', 'reversed': 'LIStr'}
 
 
@@ -208,6 +212,19 @@ def valid_bytes(v):
         from models import bit_ref
         model = {'passes': [c13.layout_pass(p, c, f, fpb, tuple(xyz)) for p, (c, f, fpb, xyz) in enumerate(v['passes'])]}
         return bit_ref.produce(model), 'BIT', None
+    if fmt == 'DAT' and 'wide' in v:
+        # a mud log with many channels: the declarations alone are longer than any fixed-size look at the head of the file
+        from models import dat_ref
+        n, rows = v['wide'], v.get('rows', 2)
+        names = ['C%03d' % i for i in range(n)]
+        lines = ['UTIM Unix Time sec', 'DATE Date ddmmyy', 'TIME Time hhmmss'] + ['%s Channel number %s of the mud log unit%d' % (nm, nm, i % 7) for i, nm in enumerate(names)]
+        lines.append(' '.join(['UTIM', 'DATE', 'TIME'] + names))
+        for r in range(rows):
+            lines.append(' '.join(['%d' % (1165665017 + r), '09-Dec-06', '11-50-%02d' % (17 + r)] + ['%d.%02d' % (i + r, i % 100) for i in range(n)]))
+        text = '\n'.join(lines) + '\n'
+        if not dat_ref.ref_parse(text).certain:
+            raise AssertionError('reference reader does not accept the produced wide DAT text (harness error)')
+        return text.encode('ascii'), 'DAT', None
     if fmt == 'DAT':
         from props import c14
         from models import dat_ref
@@ -669,6 +686,10 @@ def run_shard(shard, tier):
         import itertools
         from props import c14
         pool, k, sep = shard['pool'], shard['k'], shard['sep']
+        if (pool, k, sep) == (0, 1, 0):
+            for wide in (60, 100, 140, 420):
+                for rows in (1, 3):
+                    _run(res, _valid({'fmt': 'DAT', 'wide': wide, 'rows': rows}))
         names = c14._names(pool, k)
         perms = list(itertools.permutations(range(len(names))))
         stride = {1: 1, 2: 5, 3: 60}[k] if tier == 'quick' else {1: 1, 2: 1, 3: 12}[k]
